@@ -132,7 +132,7 @@ def exec_for(eng, stmt, st):
         from .builtins_model import iter_items
 
         items = None
-        if not isinstance(it, SymRange):
+        if not isinstance(it, SymRange) and type(it).__name__ != "VAStr":
             items = iter_items(eng, s, it)
         if items is not None:
             outs.extend(_unrolled(eng, stmt, s, items))
@@ -175,11 +175,20 @@ def eval_pred(eng, st, fn, args):
     terms = []
     for s, v in eng.call(s0, f, args, {}, "spec"):
         delta = s.pc[base:]
+        # facts assumed while evaluating the specification (instances of axioms about uninterpreted functions)
+        # are true statements: they join the caller's hypotheses instead of becoming part of the predicate
+        conds = []
+        for p in delta:
+            if p.get_id() in s.facts:
+                if p.get_id() not in st.facts:
+                    st.assume(p)
+            else:
+                conds.append(p)
         if isinstance(v, Raise):
             continue  # a raising spec path counts as False
         t = S.truth(s, v)
         t = z3.BoolVal(t) if isinstance(t, bool) else t
-        terms.append(z3.And(*(delta + [t])) if delta else t)
+        terms.append(z3.And(*(conds + [t])) if conds else t)
     return z3.Or(*terms) if terms else z3.BoolVal(False)
 
 
@@ -194,6 +203,10 @@ def _with_invariant(eng, stmt, st, it):
     elif isinstance(it, SymRange):
         n, at = it.hi - it.lo, (lambda s, k: VInt(it.lo + k))
         st.assume(z3.BoolVal(True))
+    elif type(it).__name__ == "VAStr":
+        from .astr import VChr
+
+        n, at = it.n, (lambda s, k: VChr(it.a[k]))
     else:
         raise Unsupported(f"iteration over {it!r}")
     n = z3.If(n < 0, 0, n) if isinstance(it, SymRange) else n
